@@ -123,6 +123,21 @@ CHECKS = {
         note="Trusted: the model cursor (gap tracked by the key before it). Scripts are sampled.",
         design="5/C18",
     ),
+
+    "C12": dict(
+        category="fault_enumeration",
+        technique="runtime monitoring: enumerated alterations of closed database images, each opened and integrity-checked in a worker subprocess and judged by a commit-point oracle on the contents then served",
+        text="Closed images of generated histories (512 B and 4 KiB pages, all table shapes, some crash-recovered first) are altered: header bits, byte positions of every reachable page x {bit flip, 0x00, 0xFF} (all positions in thorough, every 9th in quick), byte runs, page swaps, a sample of free/slack bytes. Each altered image is opened and check_integrity() called: Ok(true) demands that the full contents and persistent savepoints then served equal one commit point of the history, Ok(false) demands the same plus Ok(true) from a second check; Err is fine; panics and process aborts are counted, not judged.",
+        note="Trusted: the reference model's list of commit points. Workers are subprocesses of the harness binary. Positions are sampled in the quick tier.",
+        design="5/C12",
+    ),
+    "C19": dict(
+        category="exploration",
+        technique="runtime monitoring: differential execution against redb 3.0.0 linked into the same harness, with a reference model carried across the version boundary in both directions",
+        text="Files written by the working tree (plain key types, long-common-prefix keys with shortened separators over several levels, multimaps, savepoints, every commit strategy; at clean close and as crash images) are opened by redb 3.0.0: contents and savepoints must equal an admissible commit point and 3.0.0's check_integrity must be Ok(true); 3.0.0 continues the file and the working tree reads it back; and the reverse direction. Composite built-in types are a separate stratum. Two known findings are listed in known_findings.json.",
+        note="Trusted: redb 3.0.0 from the offline registry as the reference reader; 4 KiB pages only; one older release.",
+        design="5/C19",
+    ),
 }
 
 REASONS_NOT_YET = "check not built yet in this revision of /verif (runtime-monitoring design exists in DESIGN.md section 5)"
